@@ -149,6 +149,20 @@ class _Tx(ast.NodeTransformer):
         self.generic_visit(node)
         return node
 
+    @staticmethod
+    def _wrap_iter(e):
+        return ast.copy_location(ast.Call(func=ast.Name(id='_zx_it_', ctx=ast.Load()), args=[e], keywords=[]), e)
+
+    def visit_For(self, node):
+        self.generic_visit(node)
+        node.iter = self._wrap_iter(node.iter)
+        return node
+
+    def visit_comprehension(self, node):
+        self.generic_visit(node)
+        node.iter = self._wrap_iter(node.iter)
+        return node
+
     def visit_SetComp(self, node):
         self.generic_visit(node)
         gen = ast.GeneratorExp(elt=node.elt, generators=node.generators)
@@ -391,7 +405,7 @@ def zx_dictcomp(gen):
     return out
 
 
-RUNTIME = {'_zx_setcomp_': zx_setcomp, '_zx_dictcomp_': zx_dictcomp, '_zx_cm_': zx_cm, '_zx_in_': zx_in, '_zx_not_': zx_not, '_zx_gi_': zx_gi, '_zx_mod_': zx_mod, '_zx_si_': zx_si, '_zx_di_': zx_di}
+RUNTIME = {'_zx_it_': shims.set_order, '_zx_setcomp_': zx_setcomp, '_zx_dictcomp_': zx_dictcomp, '_zx_cm_': zx_cm, '_zx_in_': zx_in, '_zx_not_': zx_not, '_zx_gi_': zx_gi, '_zx_mod_': zx_mod, '_zx_si_': zx_si, '_zx_di_': zx_di}
 
 
 # ------------------------------------------------------------------ loader
